@@ -668,6 +668,10 @@ class Node:
         object_list = []
         for item_key, item_value in attr_node.yaml_node.value:
             item_value_node = Node(item_value)
+            if item_value_node.is_mapping():
+                # add to a copy, the item may be used elsewhere as well
+                item_value_node = Node(copy(item_value))
+                item_value_node.yaml_node.value = list(item_value.value)
             if not item_value_node.is_mapping():
                 ynode = item_value_node.yaml_node
                 item_value_node.make_mapping()
@@ -943,6 +947,9 @@ class Node:
             if (
                     isinstance(new_mapping, yaml.MappingNode) and
                     not Node(new_mapping).has_attribute(key_attribute)):
+                # add to a copy, the item may be used elsewhere as well
+                new_mapping = copy(new_mapping)
+                new_mapping.value = list(new_mapping.value)
                 key_key = yaml.ScalarNode(
                         'tag:yaml.org,2002:str', key_attribute,
                         key_node.start_mark, key_node.end_mark)
